@@ -33,6 +33,7 @@ class Ent:
         self.renameable = renameable
         self.extended = extended
         self.finding = None      # entity-level finding family (two_libraries)
+        self.cross = False       # entity-declarative-part item referenced from other files (always sampled)
         self.occs = []
 
     def __repr__(self):
@@ -236,6 +237,8 @@ def gen_project(seed, idx, family=None):
         ln("  type ", d(u_lvl), " is (", P.mark("char_decl", "'0'"), ", ", P.mark("char_decl", "'1'"), ", 'Z');")
         ln("  function ", d(u_f), " (", d(u_fa), " : ", r(u_lvl), ") return ", r(u_lvl), ";")
         ln("end package ", e(UPK), ";")
+        if R.random() < 0.5:
+            P.file("util_pk_body.vhd", L2)
         ln("package body ", r(UPK), " is")
         ln("  function ", d(u_f), " (", d(u_fa), " : ", r(u_lvl), ") return ",
            r(u_lvl), " is")
@@ -334,6 +337,10 @@ def gen_project(seed, idx, family=None):
     ln("  attribute ", d(attr), " : integer;")
     ln("end package ", e(PK), ";")
     ln()
+    if R.random() < 0.6:
+        P.file("types_pk_body.vhd", L1)
+        if R.random() < 0.3:
+            P.unicode_files.add("types_pk_body.vhd")
     ln("package body ", r(PK), " is")
     ln("  constant ", d(c_def), " : ", r(rec_t), " := (", r(el_a), " => ", r(c_w), ", ", r(el_b), " => ", r(lit_c[0]), ");")
     ln("  function ", d(f_int), " (", d(fp_int), " : integer) return integer is")
@@ -433,6 +440,24 @@ def gen_project(seed, idx, family=None):
     u1 = P.ent("u_ent", "label")
     u2 = P.ent("u_cmp", "label")
     u3 = P.ent("u_cfg", "label")
+    e_st = P.ent("e_st", "subtype")
+    e_ty = P.ent("e_ty", "type")
+    e_sig = P.ent("e_sig", "signal")
+    e_at = P.ent("e_at", "attribute")
+    e_al = P.ent("e_al", "alias")
+    e_fn = P.ent("e_fn", "function")
+    e_fnp = P.ent("ea", "parameter")
+    e_pr = P.ent("e_pr", "procedure")
+    e_pro = P.ent("eo", "parameter")
+    e_prv = P.ent("ev", "parameter")
+    A2 = P.ent("alt", "architecture")
+    x2 = P.ent("x2", "signal")
+    y2 = P.ent("y2", "signal")
+    z2 = P.ent("z2", "signal")
+    es_loc = P.ent("es", "signal")
+    ey_loc = P.ent("ey", "signal")
+    for x_ in (e_c, e_st, e_ty, e_sig, e_at, e_al, e_fn, e_pr):
+        x_.cross = True          # declared in an entity declarative part, used from architectures in other files
     P.file("core.vhd", L1)
     if R.random() < 0.4:
         P.unicode_files.add("core.vhd")
@@ -449,10 +474,46 @@ def gen_project(seed, idx, family=None):
     ln("  generic (", d(g_w), " : integer := 4; ", d(g_n), " : natural := 2);")
     ln("  port (", d(p_clk), " : in bit; ", d(p_a), " : in bit;", SP, d(p_b), " : out bit; ", d(p_c), " : out integer);")
     ln("  constant ", d(e_c), " : integer := ", r(g_w), " + 1;")
+    # items declared in the ENTITY declarative part, used from the architectures (usually in other files)
+    ln("  subtype ", d(e_st), " is integer range 0 to 255;")
+    ln("  type ", d(e_ty), " is array (0 to 1) of bit;")
+    ln("  signal ", d(e_sig), " : bit;")
+    ln("  attribute ", d(e_at), " : integer;")
+    ln("  attribute ", r(e_at), " of ", r(e_sig), " : signal is 2;")
+    ln("  alias ", d(e_al), " is ", r(p_a), ";")
+    ln("  function ", d(e_fn), " (", d(e_fnp), " : integer) return integer is")
+    ln("  begin")
+    ln("    return ", r(e_fnp), " + ", r(e_c), ";")
+    ln("  end function ", e(e_fn), ";")
+    ln("  procedure ", d(e_pr), " (signal ", d(e_pro), " : out bit; ", d(e_prv), " : in ", r(e_st), ") is")
+    ln("  begin")
+    ln("    if ", r(e_prv), " > 0 then ", r(e_pro), " <= '1'; else ", r(e_pro), " <= '0'; end if;")
+    ln("  end procedure ", e(e_pr), ";")
     ln("end entity", *([" ", e(E)] if R.random() < 0.8 else []), ";")
     ln()
+    if R.random() < 0.6:
+        # a second architecture of the same entity, in a third file
+        P.file("core_alt.vhd", L1)
+        ln("architecture ", d(A2), " of ", r(E), " is")
+        ln("  signal ", d(x2), " : ", r(e_st), ";")
+        ln("  signal ", d(y2), " : ", r(e_ty), ";")
+        ln("  signal ", d(z2), " : bit;")
+        ln("begin")
+        ln("  ", r(x2), " <= ", r(e_fn), "(", r(e_c), ") + ", r(g_w), " when ", r(p_clk), " = '1' else 0;")
+        ln("  ", r(y2), "(0) <= ", r(e_al), ";")
+        ln("  ", r(e_pr), "(", r(z2), ", ", r(x2), ");")
+        ln("  ", r(e_sig), " <= ", r(z2), " and ", r(y2), "(0);")
+        ln("  ", r(p_b), " <= ", r(e_sig), ";")
+        ln("  ", r(p_c), " <= ", r(e_sig), "'", r(e_at), " + ", r(x2), ";")
+        ln("end architecture ", e(A2), ";")
+    if R.random() < 0.7:
+        P.file("core_rtl.vhd", L1)
+        if R.random() < 0.4:
+            P.unicode_files.add("core_rtl.vhd")
     P.comment([E, A, s1, s2])
     ln("architecture ", d(A), SP, "of", SP, r(E), " is")
+    ln("  signal ", d(es_loc), " : ", r(e_st), ";")
+    ln("  signal ", d(ey_loc), " : ", r(e_ty), ";")
     ln("  signal ", d(s1), ", ", d(s2), " : bit;")
     ln("  signal ", d(cnt), " : ", r(small_t), ";")
     ln("  signal ", d(colsig), " : ", r(col_t), " := ", r(lit_c[0]), ";")
@@ -523,6 +584,9 @@ def gen_project(seed, idx, family=None):
     ln("    wait on ", r(s1), ", ", r(s2), " until ", r(s2), " = '1';")
     ln("  end process ", e(proc2), ";")
     ln("  ", r(pr1), "(", r(s1), ", 3);")
+    ln("  ", r(es_loc), " <= ", r(e_fn), "(", r(e_c), ") when ", r(e_sig), " = '1' else ", r(e_sig), "'", r(e_at), ";")
+    ln("  ", r(ey_loc), "(1) <= ", r(e_al), ";")
+    ln("  ", r(e_pr), "(", r(ey_loc), "(0), ", r(es_loc), ");")
     ln("  ", r(s2), " <= ", r(s1), " and ", r(p_a), ";")
     ln("  ", r(p_b), " <= ", r(s2), ";")
     ln("  ", d(blk), " : block is")
@@ -560,6 +624,8 @@ def gen_project(seed, idx, family=None):
         ln("entity ", d(T), " is")
         ln("  port (", d(t_clk), " : in bit; ", d(t_x), " : in bit; ", d(t_y), " : out bit; ", d(t_z), " : out bit);")
         ln("end entity ", e(T), ";")
+        if R.random() < 0.5:
+            P.file("top_str.vhd", L1)
         ln("architecture ", d(S), " of ", r(T), " is")
         ln("  signal ", d(n1), " : integer;")
         ln("  component ", d(lcomp), " is")
@@ -578,10 +644,14 @@ def gen_project(seed, idx, family=None):
            r(lp_c), " => open);")
         ln("end architecture ", e(S), ";")
         if with_cfg:
+            if R.random() < 0.7:
+                P.file("top_cfg.vhd", L1)
+            if R.random() < 0.5:
+                ln("library ", r(lib1_ent), ";")
             ln("configuration ", d(CFG), " of ", r(T), " is")
             ln("  for ", r(S, "block_config"))
             ln("    for ", r(u2, "block_config"), " : ", r(lcomp, "block_config"))
-            ln("      use entity ", r(lib1_ent, "block_config"), ".", r(E, "block_config"), "(", r(A, "block_config"), ");")
+            ln("      use entity work.", r(E, "block_config"), "(", r(A, "block_config"), ");")
             ln("    end for;")
             ln("  end for;")
             ln("end configuration ", e(CFG), ";")
@@ -594,6 +664,8 @@ def gen_project(seed, idx, family=None):
         P.file("tb.vhd", L1)
         ln("entity ", d(TB), " is")
         ln("end entity ", e(TB), ";")
+        if R.random() < 0.4:
+            P.file("tb_sim.vhd", L1)
         ln("architecture ", d(SIM), " of ", r(TB), " is")
         ln("  signal ", *sum([[d(x), ", "] for x in tb_sigs[:-1]], []), d(tb_sigs[-1]), " : bit;")
         ln("begin")
